@@ -636,8 +636,9 @@ func (p *printer) writeBody(sb *strings.Builder, t *Term) {
 	case "sym", "bound":
 		sb.WriteString(quoteSym(t.val))
 	case "constarr":
+		// cvc5 requires a syntactic value here: print the element without references to defined names
 		sb.WriteString("((as const " + t.sort.Name + ") ")
-		p.write(sb, t.args[0])
+		(&printer{shared: map[int]bool{}}).write(sb, t.args[0])
 		sb.WriteString(")")
 	case "forall", "exists":
 		parts := strings.Split(t.val, "|")
